@@ -518,14 +518,16 @@ impl FdtInstance {
             .fec_oti_max_number_of_encoding_symbols
             .unwrap_or(self.fec_oti_maximum_source_block_length.unwrap());
 
+        // An FDT announcing less encoding symbols than source symbols carries no usable OTI
+        let max_number_of_parity_symbols = fec_oti_max_number_of_encoding_symbols
+            .checked_sub(self.fec_oti_maximum_source_block_length.unwrap())?;
+
         Some(oti::Oti {
             fec_encoding_id,
             fec_instance_id: self.fec_oti_fec_instance_id.unwrap_or(0) as u16,
             maximum_source_block_length: self.fec_oti_maximum_source_block_length.unwrap() as u32,
             encoding_symbol_length: self.fec_oti_encoding_symbol_length.unwrap() as u16,
-            max_number_of_parity_symbols: (fec_oti_max_number_of_encoding_symbols
-                - self.fec_oti_maximum_source_block_length.unwrap())
-                as u32,
+            max_number_of_parity_symbols: max_number_of_parity_symbols as u32,
             scheme_specific,
             inband_fti: false,
         })
@@ -605,14 +607,16 @@ impl File {
             .fec_oti_max_number_of_encoding_symbols
             .unwrap_or(self.fec_oti_maximum_source_block_length.unwrap());
 
+        // An FDT announcing less encoding symbols than source symbols carries no usable OTI
+        let max_number_of_parity_symbols = fec_oti_max_number_of_encoding_symbols
+            .checked_sub(self.fec_oti_maximum_source_block_length.unwrap())?;
+
         Some(oti::Oti {
             fec_encoding_id,
             fec_instance_id: self.fec_oti_fec_instance_id.unwrap_or(0) as u16,
             maximum_source_block_length: self.fec_oti_maximum_source_block_length.unwrap() as u32,
             encoding_symbol_length: self.fec_oti_encoding_symbol_length.unwrap() as u16,
-            max_number_of_parity_symbols: (fec_oti_max_number_of_encoding_symbols
-                - self.fec_oti_maximum_source_block_length.unwrap())
-                as u32,
+            max_number_of_parity_symbols: max_number_of_parity_symbols as u32,
             scheme_specific,
             inband_fti: false,
         })
